@@ -293,6 +293,7 @@ class KafkaClient(object):
                         del self.topics_to_brokers[TopicAndPartition(topic, partition)]
                     except KeyError:
                         pass
+                    self.partition_meta.pop(TopicAndPartition(topic, partition), None)
                 del self.topic_partitions[topic]
 
             try:
@@ -322,6 +323,7 @@ class KafkaClient(object):
         """
         self.topics_to_brokers.clear()
         self.topic_partitions.clear()
+        self.partition_meta.clear()
         self.topic_errors.clear()
         self._group_to_coordinator.clear()
 
